@@ -27,10 +27,16 @@ pub fn run(ctx: &RunCtx) -> PropResult {
     let mut report = Report::default();
     let p = profile();
     run_profile(ctx, &p, ctx.tier.pick(6000, 100_000), &mut report);
+    // long histories over two keys: version lists of 20-100 entries per key (longer than an index block for long keys),
+    // spread over several blobs, heavy timestamp ties, markers deep inside the list
+    let mut p2 = profile();
+    p2.phase = "history-deep";
+    p2.gen = GenParams { nkeys: 2, ts_span: 3, metas: 3, max_ops: ctx.tier.pick(110, 220) as usize, w_write: 64, w_delete: 8, w_switch: 10, w_wait: 4, w_reopen: 5, ..Default::default() };
+    run_profile(ctx, &p2, ctx.tier.pick(500, 12_000), &mut report);
     PropResult {
         report,
         level: "exploration",
-        rule: "proptest histories as for C01 with metadata on puts and markers (pool of 3 metas + none), both only_if_presented values, both duplicate policies; after EVERY step, for every pool key: read_all_with_deletion_marker and read_all (every entry loaded: timestamp, deleted flag, data bytes, meta), read_with for every pool meta and one never-written meta (classification + bytes), the u64 returned by every delete, and per-blob record counts (a suppressed duplicate write must not store anything) compared with the reference model. Non-trivial = a key whose cut list draws from >=2 blobs and ends in a marker, or a read_with whose match lies in another blob than the first-ranked record. distinct = FNV hash of the serialized case.".into(),
+        rule: "proptest histories as for C01 with metadata on puts and markers (pool of 3 metas + none), both only_if_presented values, both duplicate policies; after EVERY step, for every pool key: read_all_with_deletion_marker and read_all (every entry loaded: timestamp, deleted flag, data bytes, meta), read_with for every pool meta and one never-written meta (classification + bytes), the u64 returned by every delete, and per-blob record counts (a suppressed duplicate write must not store anything) compared with the reference model. A second phase (history-deep) runs histories of up to 110 (thorough: 220) steps over two keys, so that version lists of 20-100 entries per key arise, spread over several blobs and longer than an index block for long keys. Non-trivial = a key whose cut list draws from >=2 blobs and ends in a marker, or a read_with whose match lies in another blob than the first-ranked record. distinct = FNV hash of the serialized case.".into(),
         assumptions: common_assumptions(),
     }
 }
